@@ -245,7 +245,10 @@ impl Tokenizer<'_> {
                 Ok(())
             }
 
-            '\n' => Err(KikiErr::Lex(current_index, Some(current))),
+            '\n' => {
+                self.assert_outer_attribute_brackets_match(start, end)?;
+                Err(KikiErr::Lex(current_index, Some(current)))
+            }
 
             _ => {
                 self.state = State::OuterAttribute(
@@ -259,6 +262,23 @@ impl Tokenizer<'_> {
     }
 
     fn finish_outer_attribute(&mut self, start: ByteIndex, end: ByteIndex) -> Result<(), KikiErr> {
+        self.assert_outer_attribute_brackets_match(start, end)?;
+
+        self.state = State::Main;
+        self.out.push(Token::OuterAttribute(Attribute {
+            src: self.src[start.0..end.0].to_string(),
+            position: start,
+        }));
+        Ok(())
+    }
+
+    /// Returns an error for the first closing bracket (if any)
+    /// that does not match its opening bracket.
+    fn assert_outer_attribute_brackets_match(
+        &self,
+        start: ByteIndex,
+        end: ByteIndex,
+    ) -> Result<(), KikiErr> {
         let mut stack = Vec::new();
         let bracket_start = ByteIndex(start.0 + "#".len());
         for (relative_index, current) in self.src[bracket_start.0..end.0].char_indices() {
@@ -288,11 +308,6 @@ impl Tokenizer<'_> {
             }
         }
 
-        self.state = State::Main;
-        self.out.push(Token::OuterAttribute(Attribute {
-            src: self.src[start.0..end.0].to_string(),
-            position: start,
-        }));
         Ok(())
     }
 
@@ -349,7 +364,11 @@ impl Tokenizer<'_> {
 
             State::Pound(start) => Err(KikiErr::Lex(start, Some('#'))),
 
-            State::OuterAttribute(start, _, end) => self.finish_outer_attribute(start, end),
+            State::OuterAttribute(start, _, end) => {
+                // The attribute is still open, so it is unterminated.
+                self.assert_outer_attribute_brackets_match(start, end)?;
+                Err(KikiErr::Lex(current_index, current))
+            }
         }?;
 
         self.state = State::Main;
